@@ -113,12 +113,28 @@ impl<'tcx> D<'tcx> {
             },
             other => format!("{:?}", other),
         };
-        J::O(vec![
+        let mut o = vec![
             ("file", J::S(file)),
             ("line", J::I(lo.line as i128)),
             ("col", J::I(lo.col.0 as i128 + 1)),
             ("exp", J::B(sp.from_expansion())),
-        ])
+        ];
+        if sp.from_expansion() {
+            // which macro (outermost expansion): `cfg`, `debug_assert`, ..
+            let mut cur = sp;
+            let mut name: Option<String> = None;
+            while cur.from_expansion() {
+                let ed = cur.ctxt().outer_expn_data();
+                if let rustc_span::ExpnKind::Macro(_, n) = ed.kind {
+                    name = Some(n.to_string());
+                }
+                cur = ed.call_site;
+            }
+            if let Some(n) = name {
+                o.push(("mac", J::S(n)));
+            }
+        }
+        J::O(o)
     }
 
     fn path(&self, did: DefId) -> String {
